@@ -685,6 +685,13 @@ def run(rep, tier):
     rep.floor("thread stores in the add entry points", c06_audit.add_target_rule(rep, u), 1)
     rep.floor("refusable adds", c06_audit.refused_add_rule(rep, u), 1)
     rep.floor("live records re-added", c06_audit.live_record_rule(rep, u), 1)
+    c06_audit.live_record_moved_rule(rep, u)
+    ctl = tp.probe(tp.TP_C, {"TP_CTL_ADD": "TP_CTL_ADD"}, "probe:tpctl")
+    if ctl.get("TP_CTL_ADD") is None:
+        raise driver.AnalysisBroken("TP_CTL_ADD not foldable")
+    vals2 = dict(vals)
+    vals2.update(ctl)
+    rep.floor("other-kind adds on a live record", c06_audit.other_kind_rule(rep, u, vals2), 6)
     rep.floor("descriptor-based ENOENT exits", c06_audit.tfd_kind_rule(rep, fp), 3)
     c06_audit.tpdata_snapshot_rule(rep, fl_)
     c06_audit.stale_errno_rule(rep, fl_)
